@@ -154,7 +154,9 @@ Definition set_dsec (s : dsec) (attr : bytes) (v : wv) : res dsec :=
 (* forwarded names: "preamble" -> content, "preamble_indent" -> indent, ... *)
 Definition forwarded (prefix : String.string) (name : bytes) : option bytes :=
   if beq name (B prefix) then Some (B "content")
-  else if bstarts (B prefix ++ B "_") name then Some (skipn (length (B prefix) + 1) name)
+  else if bstarts (B prefix ++ B "_") name then
+    let rest := skipn (length (B prefix) + 1) name in
+    if beq rest (B "content") then None else Some rest      (* there is no "meta_content" attribute *)
   else None.
 
 Definition set_file_attr (f : dfile) (name : bytes) (v : wv) : res dfile :=
